@@ -488,6 +488,13 @@ func Yield(op uint8) {
 func Spin() {
 	s := active
 	if s == nil {
+		// single caller: nobody else can change what the caller is waiting for
+		soloSpins++
+		if soloSpins > 200000 {
+			soloSpins = 0
+			spinOverflow = true
+			panic("verif: a single caller spun 200000 times waiting for a change nobody can make (livelock)")
+		}
 		runtime.Gosched()
 		return
 	}
@@ -589,3 +596,16 @@ func (s *Sched) sleep(dNs uint64) {
 
 // TicksLeft reports how many planned ticks were not consumed.
 func (s *Sched) TicksLeft() int { return len(s.cfg.Ticks) - s.tickPos }
+
+var (
+	soloSpins    int
+	spinOverflow bool
+)
+
+// TakeSpinOverflow reports (and clears) whether a single caller hit the spin cap.
+func TakeSpinOverflow() bool {
+	v := spinOverflow
+	spinOverflow = false
+	soloSpins = 0
+	return v
+}
